@@ -100,13 +100,18 @@ def hopOf : Sexp → Option HOp
   | .list [.atom "again", e, k] => do pure (.again (← envOf e) (← k.nat?))
   | _ => none
 
-def resS (t : Table) (cache : Cache) : Result → Sexp
+/-- read-back of every option at once (`readback` for each name of the table) -/
+def propsOf (t : Table) (c : Conf) : List Val :=
+  (kwargsOf t c).map (fun p =>
+    if p.1 = "warning_cls_on_decorator_exception" ∧ p.2 = t.warnDefault then .none else p.2)
+
+def resS (t : Table) (dflt : List Val) (cache : Cache) : Result → Sexp
   | .conf i =>
     match cache[i]? with
     | some c => .list [.atom "conf", nS i, nS cache.length, bS (warnSet t c),
-        .list ((kwargsOf t c).map (fun p => valS p.2)),
-        .list (t.opts.map (fun o => valS (readback t c o.name))),
-        .list ((reprNames t c).map .atom)]
+        .list (c.key.map valS),
+        .list ((propsOf t c).map valS),
+        .list ((reprNamesOf t dflt c).map .atom)]
     | none => .list [.atom "exc", .atom "model-bug"]
   | .paramExc => .list [.atom "exc", .atom "ParamException"]
   | .shellVarExc => .list [.atom "exc", .atom "ShellVarException"]
@@ -117,6 +122,7 @@ def handle (args : List Sexp) : Option Sexp := do
   | [ops] =>
     let hops ← (← ops.items?).mapM hopOf
     let t := confTable
+    let dflt := match normalize t none [] with | .ok d => d | .error _ => []
     let (_, _, out) := hops.foldl (fun (acc : Cache × List (Option Nat) × List Sexp) h =>
       let (cache, ids, out) := acc
       let op? : Option Op := match h with
@@ -129,7 +135,7 @@ def handle (args : List Sexp) : Option Sexp := do
       | some op =>
         let (cache', r) := step t cache op
         let id := match r with | .conf i => some i | _ => none
-        (cache', ids ++ [id], out ++ [resS t cache' r])) ([], [], [])
+        (cache', ids ++ [id], out ++ [resS t dflt cache' r])) ([], [], [])
     pure (.list out)
   | _ => none
 
